@@ -107,6 +107,19 @@ CORPUS = [
      "(const %c4 ptr 4) (binop %p1 ptr add @gv %c4) (binop %p2 ptr add %p1 %c4) (load %v i32 %p2) (ret %v))))",
      vars_=" (var gv global 16 4 (init (bytes 0100000002000000030000000400000)))".replace("0400000)", "04000000)")),
      {"f": [[]]}),
+    # floating point chain (x + 0.1) + 0.2 is not x + 0.30000000000000004
+    ("constfold-float-chain", K("k6", "(func f global f64 e (params (x f64)) (blocks (block e "
+     "(fconst %c1 f64 4591870180066957722) (fconst %c2 f64 4596373779694328218) "
+     "(binop %y f64 add %x %c1) (binop %w f64 add %y %c2) (ret %w))))"),
+     {"f": [[2.2], [-0.1], [10.1], [1.0]]}),
+    # IEEE signed zeros: x + 0.0 is not x for x = -0.0 ; the constants 0.0 and -0.0 are different values
+    ("addzero-negative-zero", K("k12", "(func f global f64 e (params (x f64)) (blocks (block e "
+     "(fconst %z f64 0) (binop %y f64 add %x %z) (ret %y)))) (func g global f64 e (params (x f64)) (blocks (block e "
+     "(fconst %z f64 0) (binop %y f64 add %z %x) (ret %y))))"),
+     {"f": [[-0.0], [0.0], [1.5]], "g": [[-0.0], [2.5]]}),
+    ("cse-signed-zero-consts", K("k13", "(func f global f64 e (params (x f64)) (blocks (block e "
+     "(fconst %pz f64 0) (fconst %nz f64 9223372036854775808) (binop %a f64 mul %x %pz) (binop %b f64 add %a %nz) (ret %b))))"),
+     {"f": [[1.0], [-1.0]]}),
     # self tail call
     ("tailcall-sum", K("k7", "(func sum global i32 e (params (n i32) (acc i32)) (blocks "
      "(block e (const %z i32 0) (cjump %n le %z done rec)) (block done (ret %acc)) "
@@ -276,7 +289,7 @@ def process(ctx, tag, text, only, fixed, pipelines):
             lines.append("pass " + p)
         if after is not None:
             v["after_at"] = len(lines)
-            lines += ["load " + after, "wf"] + runs
+            lines += ["load " + after] + runs
         plan["variants"].append(v)
     return lines, plan
 
@@ -323,9 +336,7 @@ def evaluate(ctx, plan, replies):
         if replies[at].startswith("bad-op"):
             ctx.fail(f"{p}:output-not-parsable", "the output module is not expressible (dangling reference)", case0)
             continue
-        if replies[at + 1] != "ok 1":
-            ctx.count(f"after_not_wf_{p}")
-        after = [irrun.strip_steps(r) for r in replies[at + 2: at + 2 + n]]
+        after = [irrun.strip_steps(r) for r in replies[at + 1: at + 1 + n]]
         for (fname, args), b, a in zip(plan["cases"], before, after):
             if not defined(b):
                 ctx.count("skipped_original_not_defined")
@@ -349,13 +360,30 @@ def _first_diff(a, b):
 
 
 def drive(ctx, scripts):
-    """run the scripts on up to WORKERS driver processes"""
-    def one(item):
-        lines, plan = item
-        return plan, ctx.driver("C02", lines)
-    with concurrent.futures.ThreadPoolExecutor(max_workers=WORKERS) as ex:
-        for plan, replies in ex.map(one, scripts):
-            evaluate(ctx, plan, replies)
+    """run the scripts on up to WORKERS driver processes (start-up dominates: few, long sessions)"""
+    scripts = [x for x in scripts if x is not None]
+    if not scripts:
+        return
+    k = max(1, min(WORKERS, len(scripts)))
+    bins = [[] for _ in range(k)]
+    load = [0] * k
+    for item in sorted(scripts, key=lambda it: -len(it[0])):
+        j = load.index(min(load))
+        bins[j].append(item)
+        load[j] += len(item[0])
+
+    def one(items):
+        lines = [l for it in items for l in it[0]]
+        replies = ctx.driver("C02", lines)
+        out, at = [], 0
+        for ls, plan in items:
+            out.append((plan, replies[at:at + len(ls)]))
+            at += len(ls)
+        return out
+    with concurrent.futures.ThreadPoolExecutor(max_workers=k) as ex:
+        for res in ex.map(one, [b for b in bins if b]):
+            for plan, replies in res:
+                evaluate(ctx, plan, replies)
 
 
 def check(ctx):
